@@ -1,5 +1,6 @@
 import InToto.Driver.Util
 import InToto.Driver.Rules
+import InToto.Driver.Meta
 import InToto.Model.Glob
 import InToto.Spec.Glob
 
@@ -28,6 +29,9 @@ def handle (j : Json) : Json :=
   | some r => r
   | none =>
   match handleRules op a with
+  | some r => r
+  | none =>
+  match handleMeta op a with
   | some r => r
   | none => Json.mkObj [("error", Json.str ("unknown op " ++ op))]
 
